@@ -1129,4 +1129,42 @@ func (c *Ctx) checkIdentTests(r *Report) {
 		r.Undecided("C05.R10: only %d IDENT token tests found in package eval", n)
 	}
 	r.Floor("C05.R10", 6)
+	// R13: quote() keeps its argument as code: a register node inside it would be printed / unquoted instead of the name
+	r.Rule("C05.R13", "a name that the body quotes keeps its variable: ModifyRegister aborts the rewrite (returns cont=false) on an edge where the builtin's token was tested against QUOTE")
+	{
+		mr := c.SSAFn(c.Fn("eval", "ModifyRegister"))
+		quoteK, _ := constInt64(c.Const("token", "QUOTE"))
+		aborts := false
+		pos := c.Pos(mr.Pos())
+		for _, b := range mr.Blocks {
+			ifi, ok := b.Instrs[len(b.Instrs)-1].(*ssa.If)
+			if !ok {
+				continue
+			}
+			for _, cc := range expandCond(ifi, ifi.Cond, 0, 0) {
+				bin, ok := cc.Cond.(*ssa.BinOp)
+				if !ok || bin.Op != token.EQL || cc.Edge != 0 {
+					continue
+				}
+				k, ok := constInt(bin.Y)
+				if !ok || k != quoteK {
+					continue
+				}
+				arm := b.Succs[0]
+				for _, ab := range mr.Blocks {
+					if !(ab == arm || (len(arm.Preds) == 1 && arm.Dominates(ab))) {
+						continue
+					}
+					if ret, ok := ab.Instrs[len(ab.Instrs)-1].(*ssa.Return); ok && len(ret.Results) == 2 {
+						if kk, ok := retVal(ret, 1).(*ssa.Const); ok && kk.Value != nil && kk.Value.ExactString() == "false" {
+							aborts = true
+							pos = c.Pos(ret.Pos())
+						}
+					}
+				}
+			}
+		}
+		r.Check(aborts, "C05.R13", ssaFuncName(mr), "the rewrite is given up for a name inside quote()", pos,
+			"ModifyRegister never aborts on a quote builtin: inside quote() the parameter's identifier is replaced by its *Register node, so func f(n){quote(n+1)}; f(3) gives quote(R[0,n]+1) with registers and quote(n+1) without, and quote(unquote(n)) is an error with registers only")
+	}
 }
